@@ -344,6 +344,7 @@ package rules
 //@   assert at store index#1@1ec014f1.1: stored == tclone.ret0[tclone.n - 1] && mlock.n == old(mlock.n) + 2 && mlock.arg0[old(mlock.n) + 1] == &r.rulesTreeMutex && munlock.n == old(munlock.n)
 //@   assert at store knownRules#1@2837d8d9.1: mlock.n == old(mlock.n) + 1 && munlock.n == old(munlock.n)
 //@   assert at store knownRules#2@dbcc22b9.1: mlock.n == old(mlock.n) + 1 && munlock.n == old(munlock.n)
+//@   assert at call addRulesTo#1: callarg2 == rules
 
 //@ func (*repository).DeleteRuleSet
 //@   props C06 C07
